@@ -285,6 +285,11 @@ func ruleP3(r *Run) {
 						return true
 					}
 				}
+				// (c) the value variable of a range over a table that was swapped out (results := c.results; c.results =
+				// make(..); for _, ch := range results): the sweep written in place
+				if sweptValue(info, fd.Body)[o] {
+					return true
+				}
 				// (b) defined by loadAndDelete(...)
 				src := defs[o]
 				found := false
@@ -447,6 +452,51 @@ func ruleP5(r *Run) {
 			return true
 		})
 	}
+}
+
+// sweptValue: the value variables of `for k, v := range L` where L is a local that took a map field of channels
+// (L := x.F) which the same function then replaced by a fresh map (x.F = make(..)): every entry is delivered to exactly once
+// and is no longer in the table.
+func sweptValue(info *types.Info, body ast.Node) map[types.Object]bool {
+	out := map[types.Object]bool{}
+	taken := map[types.Object]*types.Var{}
+	replaced := map[*types.Var]bool{}
+	ast.Inspect(body, func(n ast.Node) bool {
+		as, ok := n.(*ast.AssignStmt)
+		if !ok || len(as.Lhs) != 1 || len(as.Rhs) != 1 {
+			return true
+		}
+		if fv := fieldOf(info, as.Rhs[0]); fv != nil {
+			if mt, isMap := fv.Type().Underlying().(*types.Map); isMap {
+				if _, isChan := mt.Elem().Underlying().(*types.Chan); isChan {
+					if o := identObj(info, as.Lhs[0]); o != nil {
+						taken[o] = fv
+					}
+				}
+			}
+		}
+		if fv := fieldOf(info, as.Lhs[0]); fv != nil {
+			if c, isCall := ast.Unparen(as.Rhs[0]).(*ast.CallExpr); isCall && IsBuiltin(info, c, "make") {
+				replaced[fv] = true
+			}
+		}
+		return true
+	})
+	ast.Inspect(body, func(n ast.Node) bool {
+		rs, ok := n.(*ast.RangeStmt)
+		if !ok || rs.Value == nil {
+			return true
+		}
+		if l := identObj(info, rs.X); l != nil && taken[l] != nil && replaced[taken[l]] {
+			if id, isId := rs.Value.(*ast.Ident); isId {
+				if o := info.Defs[id]; o != nil {
+					out[o] = true
+				}
+			}
+		}
+		return true
+	})
+	return out
 }
 
 // handOverSend: the send hands a value to a parked party and cannot wait - the channel is a local obtained by an exclusive
